@@ -442,8 +442,8 @@ Definition fdata (f : filt) : list string := data_attrs (fdparams f) (finit f).
 Definition fassigned (f : filt) : list string := map fst (finit f).
 Definition fcfg (f : filt) : list string := let D := fdata f in filter (fun a => negb (mem a D)) (fassigned f).
 
-(* the checker.  G = global state the statement admits as an explicit input (the NumPy seed);
-   E = attributes admitted although they are assigned from data (used only by `_partial` statements);
+(* the checker.  G = global state the statement allows as an explicit input (the NumPy seed);
+   E = attributes allowed although they are assigned from data (used only by `_partial` statements);
    C, K, D = configuration, carried and data attributes (computed once) *)
 Definition access_ok_pre (G E C K D : list string) (a : access) : bool :=
   match a with
@@ -473,7 +473,7 @@ Definition loops_ok (f : filt) : bool :=
   let D := fdata f in let C := fcfg f in
   Nat.eqb (fbadloops f) 0 && negb (Nat.eqb (length (floops f)) 0) && forallb (loop_ok_pre (fupdates f) C D) (floops f).
 
-(* the footprint of instance number i of a filter: configuration, carried state, admitted extras and globals *)
+(* the footprint of instance number i of a filter: configuration, carried state, allowed extras and globals *)
 Definition Fof (G E : list string) (f : filt) (i : nat) (l : loc) : Prop :=
   match l with
   | LAttr j a => j = i /\ (In a E \/ In a (fcfg f) \/ In a (fcarried f))
@@ -521,7 +521,7 @@ Section Sound.
     unfold frame_ok_gen. cbv zeta. rewrite !andb_true_iff. intros [[[_ Hs] _] _] s x. apply saturated_stable; exact Hs.
   Qed.
 
-  (* every attribute the update may read is not assigned from constructor data (unless explicitly admitted) *)
+  (* every attribute the update may read is not assigned from constructor data (unless explicitly allowed) *)
   Lemma frame_reads_no_data G E f u : frame_ok_gen G E f u = true ->
     forall a, In (ARd a) (foot (fmethods f) FUEL (Call u)) -> In a E \/ ~ In a (fdata f).
   Proof.
